@@ -184,3 +184,25 @@ Theorem C19_accepted_bid_refused_only_by_signer :
   PreconfBidder.get_peers PreconfBidder.TProvider view = [].
 Proof. exact Compose_bidder.accepted_refused_only_by_signer. Qed.
 Print Assumptions C19_accepted_bid_refused_only_by_signer.
+
+(* C19 o C05 o C03 o C01 (proofs/Compose_provider.v).  What the bidder API rules accept, the provider's published
+   format rules accept: the bid an honest bidder node signs for an accepted request (numbers Go int64 values),
+   decoded by a provider, satisfies providerapi.v1.Bid's rules -- hashes, amount, positive numbers, and a digest of
+   1 to 64 bytes, provided the hash function has images of that size (Keccak-256: 32). *)
+From MevVerif Require model.ProviderSvc proofs.PreconfProvider_signed proofs.NoPanic_proofs proofs.Compose_provider.
+Theorem C19_accepted_passes_provider_rules :
+  forall (K : bytes -> bytes) (rc : bytes -> bytes -> outcome bytes) (vr : bytes -> bytes -> bytes -> bool)
+         (ao : bytes -> bytes) (signB : bytes -> outcome bytes),
+  (forall m, (1 <= length (K m) <= 64)%nat) ->
+  forall r : request,
+  bidder_bid_ok (r_txs r) (r_amount r) (r_bn r) (r_ds r) (r_de r) = true ->
+  (r_bn r <= int64_max)%Z -> (r_ds r <= int64_max)%Z -> (r_de r <= int64_max)%Z ->
+  forall view D rn,
+  PreconfBidder.send_bid
+    (Compose_bidder.signer_oracles K
+       {| Signer.recover := rc; Signer.verify_rs := vr; Signer.addr_of := ao; Signer.sign := signB |})
+    (Compose_bidder.args_of (forward r)) view D = PreconfBidder.SRun rn ->
+  ProviderSvc.vbid ProviderSvc.rules_validators
+    (ProviderSvc.to_engine (PreconfProvider_signed.of_wire (NoPanic_proofs.conv_bid (PreconfBidder.r_sent rn)))) = true.
+Proof. exact Compose_provider.provider_format_ok. Qed.
+Print Assumptions C19_accepted_passes_provider_rules.
